@@ -9,6 +9,7 @@
 #include <cstdint>
 #include <cstddef>
 #include <utility>
+#include "verif_frame.hpp"
 using DK = uint8_t;
 using DV = uint8_t;
 using PGMT = pgm::PGMIndex<DK, EPS, EPSREC>;
@@ -44,16 +45,19 @@ struct pgm_verif_access {
 // out[0] = 1 iff the container is bit-identical (levels, sizes, used_levels) after the queries and the two runs of each query agree
 extern "C" __attribute__((noinline)) int u_dyn_frame(const uint8_t *ops, size_t nops, const DK *q, size_t *out) {
     try {
-        Dyn d(uint8_t(BASE), uint8_t(BUFL), uint8_t(IDXL));
+        VerifArenaScope arena;                      // real build: the container and all it allocates live in the arena
+        VERIF_FRAMED(Dyn, d, uint8_t(BASE), uint8_t(BUFL), uint8_t(IDXL));
         for (size_t i = 0; i < nops; ++i) {
             if (ops[3 * i] == 0) d.insert_or_assign(ops[3 * i + 1], ops[3 * i + 2]);
             else d.erase(ops[3 * i + 1]);
         }
+        arena.stop();
         const Dyn &c = d;
         Snap before, after;
         if (!pgm_verif_access::take(c, before)) return 8;
         bool det = true;
         auto e = c.end();
+        verif_frame_begin(&d, nullptr, nullptr, nullptr);      // writes, not only changes: see verif_frame.hpp
 #if FMODE == 0
         auto f1 = c.find(q[0]); auto f2 = c.find(q[0]);
         det = det && (f1 == f2) && c.count(q[0]) == c.count(q[0]);
@@ -65,6 +69,7 @@ extern "C" __attribute__((noinline)) int u_dyn_frame(const uint8_t *ops, size_t 
         for (auto it = c.begin(); it != e; ++it) if (++n2 > 64) return 9;
         det = det && n1 == n2;
 #endif
+        verif_frame_end();
         if (!pgm_verif_access::take(c, after)) return 8;
         out[0] = det && pgm_verif_access::same(before, after);
         return 0;
